@@ -4,6 +4,27 @@ import json, os, subprocess
 
 ROOT = os.path.dirname(os.path.dirname(os.path.abspath(__file__)))
 
+# additions of round 5 (appended to the level text)
+ROUND5 = {
+    "C01": " Round 5: ADFs of 120..530 statements; objects whose diagram store reports to a listener that has hung up.",
+    "C02": " Round 5: lazy enumeration with 41..130 undecided statements (first ten models: grounded first, fixpoints, distinct); hung-up listeners.",
+    "C03": " Round 5: 62..140 statements with a small cyclic core anywhere in the order (exact oracle: cycle statements enumerated, the rest evaluated in topological order); hung-up listeners.",
+    "C04": " Round 5: 62..140 statements with a small cyclic core; hung-up listeners.",
+    "C05": " Round 5: 58..140 statements (cyclic core, long chains, parity over all statements); hung-up listeners.",
+    "C08": " Round 5: valid text after up to 2 100 rejected texts on the same thread; mutants full of multi-byte characters with a logger active; nesting 500..900 through the CLI.",
+    "C09": " Round 5: 126..520 statements; node tables beyond 2^15 / 2^16 / 2^17 entries during compilation.",
+    "C10": " Round 5: input files beyond 64 / 128 KiB with a multi-byte character across that offset; labels with numbers of 18..30 digits (open finding K7).",
+    "C11": " Round 5: call histories on one biodivine-backed object; listeners attached to the diagram store that stay or hang up.",
+    "C12": " Round 5: deep diagrams (20..100 variables, counts that saturate) in all 12 builds.",
+    "C13": " Round 5: depths up to 100 with exactness wherever a count fits a machine word (depth 64); variable indices up to 2^62.",
+    "C14": " Round 5: parity chains over 60..90 statements (2^(n-1) paths) through both round trips.",
+    "C15": " Round 5: files beyond 64 / 128 KiB, nesting 500..900, numbers of 18..30 digits in labels (open finding K7), --export into a fresh file next to any flag combination.",
+    "C16": " Round 5: statements called TOP / BOT / T / F / u; polling beyond the service's own time limit.",
+    "C18": " Round 5: results of conclusions() fed back as interpretations.",
+    "C19": " Round 5: backlogs of 200..4 200 pending messages taken by one poll.",
+    "C20": " Round 5: every standard way of consuming the iterators after j next() calls; vectors longer than 2^16 entries.",
+}
+
 # id -> (category, technique, level text, level note, design ref)
 CHECKS = {
     "C01": ("exploration",
@@ -123,6 +144,7 @@ def main():
         if i not in CHECKS:
             continue
         cat, tech, text, note, ref = CHECKS[i]
+        text = text + ROUND5.get(i, "")
         checks.append({
             "property_id": i,
             "quick_cmd": f"./check {i} quick",
